@@ -15,6 +15,7 @@ func init() {
 			"FE-CLASS: scanSpace skips space, tab, CR, LF",
 			"CH-MAP: BinOp.Precedence level order (shared with C13)",
 			"CH-MAP: ScanUnit suffix table (bytes vs duration, m is minutes); PV-FIRST: duplicate label_format target / regexp capture rejected; PV-API: strings unquoted once",
+			"PV-API: no strconv.Unquote on LogQL source text (backquoted literals keep their carriage returns)",
 		},
 		NotDecided: []string{"acceptance of the whole grammar / independence from layout, comments and redundant parentheses beyond the look-ahead rule", "and/or precedence inside label predicates", "numeric literal values, string unquoting (strutil.Unquote), duration/bytes literal values"},
 		Rules: func(r *Run) {
